@@ -312,3 +312,60 @@ Definition ostep (fixed : bool) (w : oworld) (l : olabel) : oworld :=
 
 Definition orun (fixed : bool) (sch : list olabel) (w : oworld) : oworld := fold_left (ostep fixed) sch w.
 Definition oinit : oworld := {| ob := init; opening := []; late := []; open_errs := O; panics := O |}.
+
+(* ------------------------------------------------------------------------------------------ *)
+(* Shared-memory slices held by a session's streams (stream.go close -> clean: pendingData.clear, *)
+(* recvBuf.recycle, sendBuf.recycle).  The buffer manager is process-wide, reference counted by   *)
+(* path and shared by every session on that path: a dead session's slices must go back to the     *)
+(* free lists one by one — the memory is NOT released as a whole while a sibling keeps the manager *)
+(* alive.  A layer over the base model: a holding = (session index, number of slices) of one       *)
+(* stream (unread received data, pending data, written-but-unflushed data).  The cleanup (base     *)
+(* LLambda) closes every stream of the table it drops; Stream.clean recycles what the stream holds.*)
+(* [recycles] selects the code: true = clean() always recycles (the code that exists); false =     *)
+(* clean() returns early when the session is closed (regression witness: the slices are lost).     *)
+(* ------------------------------------------------------------------------------------------ *)
+Inductive plabel :=
+  | PBase (l : label)
+  | PTake (i n : nat)      (* a stream of session i comes to hold n slices (data arrived / user wrote) *)
+  | PGive (k : nat).       (* the k-th holding is released the ordinary way (read + release, flush, stream close) *)
+
+Record pworld := {
+  pb : world;
+  holds : list (nat * nat);
+  taken : nat;             (* slices taken from the free lists so far *)
+  returned : nat }.        (* slices put back so far *)
+
+Definition total_held (h : list (nat * nat)) : nat := fold_right (fun x acc => snd x + acc)%nat O h.
+Definition held_by (i : nat) (h : list (nat * nat)) : nat :=
+  total_held (filter (fun x => Nat.eqb (fst x) i) h).
+
+Fixpoint drop_nth {A} (k : nat) (l : list A) : list A :=
+  match l, k with
+  | [], _ => []
+  | _ :: r, O => r
+  | x :: r, S j => x :: drop_nth j r
+  end.
+
+Definition pstep (recycles : bool) (w : pworld) (l : plabel) : pworld :=
+  match l with
+  | PBase b =>
+      let b' := step (pb w) b in
+      let gone := filter (fun x => table_dropped b' (fst x)) (holds w) in
+      {| pb := b'; holds := filter (fun x => negb (table_dropped b' (fst x))) (holds w);
+         taken := taken w;
+         returned := if recycles then (returned w + total_held gone)%nat else returned w |}
+  | PTake i n =>
+      match nth_error (ss (pb w)) i with
+      | Some s => if cleaned s then w     (* a closed stream takes no share memory *)
+                  else {| pb := pb w; holds := (i, n) :: holds w; taken := (taken w + n)%nat; returned := returned w |}
+      | None => w
+      end
+  | PGive k =>
+      match nth_error (holds w) k with
+      | Some (_, n) => {| pb := pb w; holds := drop_nth k (holds w); taken := taken w; returned := (returned w + n)%nat |}
+      | None => w
+      end
+  end.
+
+Definition prun (recycles : bool) (sch : list plabel) (w : pworld) : pworld := fold_left (pstep recycles) sch w.
+Definition pinit : pworld := {| pb := init; holds := []; taken := O; returned := O |}.
